@@ -15,8 +15,10 @@ for ClassManager resolver calls).  Decided, for all inputs at once:
     to depend on the loop counter), reset per list;
 (4) encoded_field / encoded_method read idx_diff, access_flags(, code_off) as
     ULEB128 in document order.
-Not decided: name/descriptor lookup helpers of DEX (dictionary caches keyed by
-run-time strings), annotation/debug items, equality with a generated model.
+(5) the name/descriptor lookup helpers of DEX (agstatic/dexlookup.py): producer/consumer key
+    agreement of the dictionary caches, `==` guards against the getter of each parameter's
+    role in the linear scans (first match / every match), regex helpers match the name getter.
+Not decided: annotation/debug items, equality with a generated model.
 """
 from __future__ import annotations
 
@@ -293,10 +295,10 @@ def run(ctx):
     ctx.floor("load_calls", 4)
     ctx.floor("diff_chain_elements", 6)
     ctx.floor("leb_orders", 3)
+    ctx.floor("lookup_helpers", 11)
     ctx.assume("cm.packer[fmt] is struct.Struct('<'+fmt) (DalvikPacker.__getitem__; endian tag checked under C09)")
     ctx.assume("readuleb128/readuleb128p1/readsleb128 consume exactly one LEB128 value from the stream (decided under C03)")
-    ctx.note("not decided: DEX.get_class / get_encoded_method_descriptor style lookup helpers (dictionary caches keyed by run-time strings); "
-             "annotation, debug-info and encoded-value items; try/handler tables (C08)")
+    ctx.note("not decided: annotation, debug-info and encoded-value items; try/handler tables (C08)")
     positive_control(ctx)
     if ctx.tier == "thorough":
         thorough(ctx)
@@ -341,6 +343,8 @@ def core(ctx):
     check_members(ctx, md, list_roles)
     check_code(ctx, md)
     check_header_use(ctx, md)
+    from ..dexlookup import check_lookups
+    check_lookups(ctx, md.repo, md.folder)
 
 
 # ---- (1a) layouts ----------------------------------------------------------------
@@ -983,9 +987,19 @@ def thorough(ctx):
     breaking.append(("ClassDataItem: prev never updated", lambda: _drop_prev_update(fn("ClassDataItem._load_elements")) if "ClassDataItem._load_elements" in m.functions else None))
     breaking.append(("ClassDataItem: direct/virtual swapped", lambda: _swap_list_args(fn("ClassDataItem.__init__"))))
     breaking.append(("EncodedField.reload: name <- type slot", lambda: _swap_index_consts(fn("EncodedField.reload"))))
+    breaking.append(("DEX.get_class: == replaced by `in`", lambda: _eq_to_in(fn("DEX.get_class"))))
+    breaking.append(("DEX.get_encoded_field_descriptor: producer key order", lambda: _swap_binop_operands(fn("DEX.get_encoded_field_descriptor"))))
     benign.append(("rename private attribute MethodIdItem.name_idx_value", lambda: _rename_attr(m.cls("MethodIdItem").node, "name_idx_value", "_nm_cache")))
     benign.append(("rename private attribute ClassDefItem.sname", lambda: _rename_attr(m.cls("ClassDefItem").node, "sname", "_super_name")))
     benign.append(("reorder independent statements in FieldIdItem.reload", lambda: _swap_stmts(fn("FieldIdItem.reload"), 0, 2)))
+    # findings of the unchanged tree (known findings) are the baseline: a mutant is killed by a *new* finding
+    base = Sink(ctx.repo)
+    core(base)
+    base_keys = {(r, q, str(c)) for r, q, c, msg in base.findings}
+
+    def new_findings(s):
+        return [x for x in s.findings if (x[0], x[1], str(x[2])) not in base_keys]
+
     killed = total = 0
     survivors = []
     for name, mk in breaking:
@@ -997,7 +1011,7 @@ def thorough(ctx):
             s = Sink(ctx.repo)
             try:
                 core(s)
-                fired = bool(s.findings)
+                fired = bool(new_findings(s))
             except AnalysisError:
                 fired = False
         finally:
@@ -1017,7 +1031,7 @@ def thorough(ctx):
             s = Sink(ctx.repo)
             try:
                 core(s)
-                quiet = not s.findings
+                quiet = not new_findings(s)
             except AnalysisError:
                 quiet = True  # exit 2 is permitted for a refactor, a violation is not
         finally:
@@ -1025,7 +1039,7 @@ def thorough(ctx):
         if quiet:
             silent += 1
         else:
-            noisy.append((name, s.findings[:2]))
+            noisy.append((name, new_findings(s)[:2]))
     ctx.extra.update(mutants_killed=killed, mutants_total=total, benign_silent=silent, benign_total=btotal)
     ctx.ob("mutation-adequacy", "breaking mutants", killed == total, "%d/%d killed" % (killed, total))
     ctx.ob("mutation-adequacy", "benign mutants", silent == btotal, "%d/%d silent" % (silent, btotal))
@@ -1034,6 +1048,32 @@ def thorough(ctx):
     if noisy:
         raise AnalysisError("rule fires on behaviour-preserving edits: %s" % noisy)
     ctx.require(total >= 8 and btotal >= 3, "mutation anchors vanished (%d breaking, %d benign applicable)" % (total, btotal))
+
+
+def _eq_to_in(fnode):
+    for n in ast.walk(fnode):
+        if isinstance(n, ast.Compare) and len(n.ops) == 1 and isinstance(n.ops[0], ast.Eq):
+            old = n.ops[0]
+            n.ops[0] = ast.In()
+
+            def undo():
+                n.ops[0] = old
+            return undo
+    return None
+
+
+def _swap_binop_operands(fnode):
+    """swap the operands of the innermost `+` of the key the cache is filled with"""
+    for n in ast.walk(fnode):
+        if isinstance(n, ast.Assign) and isinstance(n.targets[0], ast.Subscript):
+            for b in ast.walk(n.targets[0].slice):
+                if isinstance(b, ast.BinOp) and isinstance(b.op, ast.Add) and not isinstance(b.left, ast.BinOp):
+                    b.left, b.right = b.right, b.left
+
+                    def undo():
+                        b.left, b.right = b.right, b.left
+                    return undo
+    return None
 
 
 def _first_leb(fnode):
